@@ -871,13 +871,58 @@ func runC01(c *hx.Ctx) {
 				sumDo(c, sc, budget, cut == 1 && (b+i)%5 == 0)
 			}
 		}
+		// (3b) a strict server (old partial tiles are gone) whose tiles run ahead of the head it signs
+		// into responses, and the full tile with an unsigned / invented tail in place of a partial one
+		for k := 0; k < 3; k++ {
+			sc := base.Clone()
+			sc.Note = "stricttiles"
+			for j := range sc.Steps {
+				sc.Steps[j].View.Strict = true
+				if k > 0 {
+					hn := int(sc.Steps[j].View.HeadN)
+					sc.Steps[j].View.TileN = int64(hn + r.Intn(base.NA-hn+1))
+					if k == 2 {
+						sc.Steps[j].View.TileN = int64(base.NA)
+					}
+				}
+			}
+			if k == 0 {
+				sc.Note = "strict-current"
+			}
+			sumDo(c, sc, budget, (b+k)%4 == 0)
+		}
+		seenPartial := map[string]bool{}
+		for _, s := range served {
+			i := strings.Index(s.Path, ".p/")
+			if i < 0 || seenPartial[s.Path] {
+				continue
+			}
+			seenPartial[s.Path] = true
+			sc := base.Clone()
+			sc.Note = "fulltail"
+			keep := -1
+			if r.Intn(3) == 0 {
+				w := 0
+				fmt.Sscanf(s.Path[i+3:], "%d", &w)
+				keep = w // exactly the hashes the client needs, junk right after
+			}
+			sc.Faults = []gen.SumFault{{Path: s.Path, Occ: s.Occ, Kind: "error"}, {Path: s.Path[:i], Occ: 0, Kind: "junktail", P1: keep}}
+			if r.Intn(4) == 0 {
+				sc.Cache = gen.SumCacheSpec{Corrupt: -1}
+			}
+			sumDo(c, sc, budget, len(seenPartial)%3 == 0)
+		}
 		// (4) cache corruption and foreign caches
 		for k := 0; k < 5; k++ {
 			sc := base.Clone()
 			sc.Note = "cachefault"
 			first := base.Steps[0].View.HeadN
 			sc.Cache = gen.SumCacheSpec{Side: 0, N: 1 + r.Int63n(int64(base.NA)), Frac: []int{100, 60}[r.Intn(2)], Seed: r.Int63n(1000), Lookups: true,
-				Corrupt: r.Intn(1000), CKind: []string{"flip", "flip", "trunc", "extend", "empty", "dup"}[r.Intn(6)]}
+				Corrupt: r.Intn(1000), CKind: []string{"flip", "flip", "trunc", "extend", "empty", "dup", "tail", "tail"}[r.Intn(8)]}
+			if sc.Cache.CKind == "tail" {
+				// the cache of a larger tree: full tiles where the client will ask for partial ones
+				sc.Cache.N, sc.Cache.Frac, sc.Cache.Lookups = int64(base.NA), 100, false
+			}
 			if r.Intn(2) == 0 {
 				sc.Cache.N = first
 			}
